@@ -246,6 +246,15 @@ func (e *Engine) syncModel(st *State, g *G, full string, args []Value) (Value, b
 	p, _ := args[0].(Ptr)
 	key := lockKey(p)
 	me := g.id + 1
+	if e.preemptLocks && e.schedAll && st.switches < e.maxSwitch && (strings.HasSuffix(full, ".Lock") || strings.HasSuffix(full, ".RLock")) {
+		// a lock acquisition is a preemption point: every other goroutine that can run may run first
+		if g.yielded {
+			g.yielded = false
+		} else if e.othersCanRun(st, g) {
+			g.yielded = true
+			return nil, true, "BLOCK" // the goroutine stays runnable; schedule() forks over all candidates
+		}
+	}
 	switch full {
 	case "(*sync.Mutex).Lock", "(*sync.RWMutex).Lock":
 		m := st.locks[key]
